@@ -329,7 +329,7 @@ def rule_5(ctx):
                 thunk_names.add(n.target.id)
         calls = [c for c in flow.calls_in(fn) if isinstance(c.func, ast.Name) and c.func.id in thunk_names]
         # which calls have their result used for truth (condition position)?
-        for c in calls:
+        for k_, c in enumerate(sorted(calls, key=flow.pos), 1):
             par = c._parent
             role = None
             if isinstance(par, ast.Assign):
@@ -357,7 +357,7 @@ def rule_5(ctx):
                     g = getattr(g, '_parent', None)
                 if g is not None and isinstance(g.targets[0], ast.Name):
                     ok = _error_checked(ctx, fn, f.module, g.targets[0].id, g)
-            ctx.expect(ok, c, f'{name}: result of `{ast.unparse(c)}` checked for errors',
+            ctx.expect(ok, c, f'{name}: result of thunk call #{k_} checked for errors',
                        f'{name} takes the truth value of `{ast.unparse(c)}` without testing it for an error value first: an error '
                        f'in the condition/argument is treated as TRUE/FALSE instead of being returned '
                        f'(IF(1/0,1,2)=1, AND(1/0,TRUE)=TRUE, OR(#N/A,FALSE)=TRUE, NOT(#N/A)=FALSE)')
